@@ -62,6 +62,11 @@ def run(ctx):
         ctx.extra["tlc_counterexample_schedule"] = sched
         if ok:
             ctx.notes.append("model-drift: TLC's counterexample schedule for ContextCond.tla did not reproduce on the code (the model is outdated, not the code wrong)")
+    # directed schedules (one Signal + a cancellation racing for the same token, Broadcast with gated waiters ...),
+    # repeated because the winning select arm is the runtime's choice
+    import os
+    bubble_tv(ctx, "TestCond", "xsync", "Trace_Cond", "tv_cond.cfg", "cond directed",
+              {"sched": os.path.join(ctx.specdir("xsync"), "cond_directed.json"), "reps": ctx.pick(12, 60)}, silent=False, sig=cond_sig)
     # T: random schedules. 'safe' = at most one waiter held at the gate at a time
     bubble_tv(ctx, "TestCond", "xsync", "Trace_Cond", "tv_cond.cfg", "cond safe", {"n": ctx.pick(150, 1500), "class": "safe", "reps": 2},
               silent=False, sig=cond_sig)
